@@ -5,6 +5,7 @@ from sa.dataflow import Poly, cmp_key, cmp_atoms
 from sa.resolve import walk_function
 from rules import C04
 
+TECHNIQUE = 'static analysis (ast): partition / delivery rules on the CFG (dominance, path counts), comparator normal forms of the time filters, taint of fitted-transformer inputs through reaching definitions, who-may-call rules on the resolved call graph'
 EXPLANATION = (
     "Decides the information-flow skeleton of C02 (not the equality of outputs over pairs of streams): (S1) an event is filed under "
     "timesteps[bisect_left(timesteps, event.time)], never an earlier step, and is latent only within `latency` exact seconds of the previous step "
